@@ -532,7 +532,12 @@ class UnitSystemManager(Singleton):
         ret_tuple = self.ConvertToCurrent(
             scalar.GetCategory(), scalar.GetUnit(), scalar.GetValue(), unit_database
         )
-        return Scalar(*ret_tuple)
+        value, unit = ret_tuple
+        if unit == scalar.GetUnit():
+            # nothing to re-express: same quantity (category, unit; simple or derived)
+            return scalar.CreateCopy(value=value)
+        # keep the category of the given scalar (not the default category of the new unit)
+        return scalar.CreateCopy(value=value, unit=unit)
 
 
 class _IdentityWrap:
